@@ -37,8 +37,8 @@ func NewRoundRobinLoadBalancer() LoadBalancer {
 }
 
 type roundRobinLoadBalancer struct {
+	index uint64 // First field to guarantee 64-bit alignment for atomic access
 	hosts atomic.Value
-	index uint32
 	mu    *sync.Mutex
 }
 
@@ -72,23 +72,24 @@ func (l *roundRobinLoadBalancer) copy() []*Host {
 func (l *roundRobinLoadBalancer) NewQueryPlan() QueryPlan {
 	return &roundRobinQueryPlan{
 		hosts:  l.hosts.Load().([]*Host),
-		offset: atomic.AddUint32(&l.index, 1) - 1,
+		offset: atomic.AddUint64(&l.index, 1) - 1,
 		index:  0,
 	}
 }
 
 type roundRobinQueryPlan struct {
 	hosts  []*Host
-	offset uint32
-	index  uint32
+	offset uint64
+	index  uint64
 }
 
 func (p *roundRobinQueryPlan) Next() *Host {
-	l := uint32(len(p.hosts))
+	l := uint64(len(p.hosts))
 	if p.index >= l {
 		return nil
 	}
-	host := p.hosts[(p.offset+p.index)%l]
+	// Reduce the offset first so that the sum cannot wrap around (a wrapped sum skips and repeats hosts)
+	host := p.hosts[(p.offset%l+p.index)%l]
 	p.index++
 	return host
 }
